@@ -224,7 +224,7 @@ def trace(C, case):
                 problems.append(("hidden-state", "a CryptoPair in the abstract state %s (recv generation, recv phase, send generation, send phase, "
                                  "update requested) differs from a pair brought there by local updates alone: %s -- the implementation carries "
                                  "state the model does not have" % (al, "; ".join(T.digest_diff(d0, T.digest(S.pairs[i], deep=True, ident=False))))))
-    if len(_MEMO) > 4000:
+    if len(_MEMO) > 30000:
         _MEMO.clear()
     _MEMO[key] = (out, toks, problems)
     return _MEMO[key]
